@@ -323,7 +323,10 @@ async fn wait_quiet(ctx: &Arc<std::sync::Mutex<PeerContext>>, base: usize) -> Re
             let c = ctx.lock().unwrap();
             // a sender whose receiver is gone (timer elapsed by itself) has no task any more
             c.gr_restart_timer.as_ref().is_some_and(|t| !t.is_closed()) as usize
-                + c.llgr_family_timers.values().filter(|t| !t.is_closed()).count()
+                + c.llgr_family_timers
+                    .values()
+                    .filter(|t| !t.is_closed())
+                    .count()
                 + c.rtc_eor_timer.as_ref().is_some_and(|t| !t.is_closed()) as usize
         };
         let strong = Arc::strong_count(ctx);
@@ -986,7 +989,10 @@ impl Model {
                         self.in_cycle = true;
                         if self.cycle == 2 {
                             st.add("cycle2:entered");
-                            st.add(&format!("cycle2:entered-after:{}", self.first_end.unwrap_or("?")));
+                            st.add(&format!(
+                                "cycle2:entered-after:{}",
+                                self.first_end.unwrap_or("?")
+                            ));
                         } else if self.cycle > 2 {
                             st.add("cycle3+:entered");
                         }
@@ -1010,8 +1016,14 @@ impl Model {
             }
             Ev::LlgrFired { fam } => {
                 if self.cycle >= 2
-                    && pre.paths.iter().any(|p| p.fam == *fam && self.stale_like(p))
-                    && !post.paths.iter().any(|p| p.fam == *fam && self.stale_like(p))
+                    && pre
+                        .paths
+                        .iter()
+                        .any(|p| p.fam == *fam && self.stale_like(p))
+                    && !post
+                        .paths
+                        .iter()
+                        .any(|p| p.fam == *fam && self.stale_like(p))
                 {
                     st.add("cycle2:llgr-expiry-purged");
                 }
@@ -1021,13 +1033,23 @@ impl Model {
             }
             Ev::Established { .. } => {
                 if self.in_cycle {
-                    ended = Some(if pre.llgr_timers != 0 { "reconnect-during-llgr" } else { "eor" });
+                    ended = Some(if pre.llgr_timers != 0 {
+                        "reconnect-during-llgr"
+                    } else {
+                        "eor"
+                    });
                 }
             }
             Ev::Eor { fam } => {
                 if self.cycle >= 2
-                    && pre.paths.iter().any(|p| p.fam == *fam && self.stale_like(p))
-                    && !post.paths.iter().any(|p| p.fam == *fam && self.stale_like(p))
+                    && pre
+                        .paths
+                        .iter()
+                        .any(|p| p.fam == *fam && self.stale_like(p))
+                    && !post
+                        .paths
+                        .iter()
+                        .any(|p| p.fam == *fam && self.stale_like(p))
                 {
                     st.add("cycle2:eor-purged");
                 }
@@ -1041,7 +1063,10 @@ impl Model {
         }
         if llgr_entered && self.cycle >= 2 {
             st.add("cycle2:llgr-period-entered");
-            st.add(&format!("cycle2:llgr-period-entered-after:{}", self.first_end.unwrap_or("?")));
+            st.add(&format!(
+                "cycle2:llgr-period-entered-after:{}",
+                self.first_end.unwrap_or("?")
+            ));
         }
         if let Some(kind) = ended {
             self.in_cycle = false;
@@ -1785,15 +1810,14 @@ impl L2Live {
 const SENTINEL: u8 = 200;
 
 /// set once a session was seen to survive a limit-exceeding UPDATE: max-prefix drops are skipped afterwards
-static MAXPREFIX_UNSIGNALLED: std::sync::atomic::AtomicBool = std::sync::atomic::AtomicBool::new(false);
+static MAXPREFIX_UNSIGNALLED: std::sync::atomic::AtomicBool =
+    std::sync::atomic::AtomicBool::new(false);
 
 /// After messages that must end the session: true if the session task is still
 /// there and installs a sentinel prefix sent after them (it keeps processing
 /// UPDATEs) or has not finished within IO_WAIT, false once the session task has finished.
 async fn session_survives(l: &mut L2Live, tables: &TableHandle, addr: IpAddr) -> bool {
-    let fi = l
-        .barrier_fam
-        .unwrap_or(if has(l.fams, 1) { 1 } else { 0 });
+    let fi = l.barrier_fam.unwrap_or(if has(l.fams, 1) { 1 } else { 0 });
     let reach = bgp::Message::Update(bgp::Update::Reach {
         family: FAMS[fi],
         entries: vec![packet::PathNlri::new(nlri(fi, SENTINEL))],
@@ -1912,7 +1936,9 @@ impl<'a> L2World<'a> {
                 families.insert(FAMS[lc.fam], 1u8);
             }
             if lc.policy {
-                tables.import_policy.store(Some(limit_import_policy(lc.fam)));
+                tables
+                    .import_policy
+                    .store(Some(limit_import_policy(lc.fam)));
             }
         }
         let params = PeerParams {
@@ -1991,7 +2017,8 @@ impl<'a> L2World<'a> {
     }
 
     async fn connect(&mut self, spec: &CapSpec) -> Result<L2Live, HErr> {
-        self.connect_caps(spec_caps(spec), spec.mp & 0b11, true).await
+        self.connect_caps(spec_caps(spec), spec.mp & 0b11, true)
+            .await
     }
 
     async fn connect_caps(
@@ -2425,8 +2452,13 @@ async fn run_history(
                 late_restart_credit += 1;
             }
             for f in 0..2 {
-                let fired = matches!(op, Op::FireLlgr { fam } | Op::ExpireLlgr { fam } if *fam == f);
-                if has(pre.llgr_timers, f) && !fires_all && !fired && (!has(post.llgr_timers, f) || replaced) {
+                let fired =
+                    matches!(op, Op::FireLlgr { fam } | Op::ExpireLlgr { fam } if *fam == f);
+                if has(pre.llgr_timers, f)
+                    && !fires_all
+                    && !fired
+                    && (!has(post.llgr_timers, f) || replaced)
+                {
                     late_llgr_credit[f] += 1;
                 }
             }
@@ -2644,7 +2676,11 @@ fn gen_late_cycle(rng: &mut Rng, layer: u8) -> (LocalCfg, Vec<Op>) {
     let spec = CapSpec {
         mp: 0b11,
         gr: Some((*rng.pick(&[0b11u8, 0b11, 0b01, 0b10]), rng.bool(), 0)),
-        llgr: if rng.bool() { *rng.pick(&[0b11u8, 0b01, 0b10]) } else { 0 },
+        llgr: if rng.bool() {
+            *rng.pick(&[0b11u8, 0b01, 0b10])
+        } else {
+            0
+        },
     };
     let mut ops = vec![Op::Connect {
         spec,
@@ -2672,7 +2708,11 @@ fn gen_late_cycle(rng: &mut Rng, layer: u8) -> (LocalCfg, Vec<Op>) {
             outcome: ConnOutcome::DieAfterOpen,
         });
     }
-    let spec2 = if rng.chance(3, 4) { spec } else { gen_spec(rng, None) };
+    let spec2 = if rng.chance(3, 4) {
+        spec
+    } else {
+        gen_spec(rng, None)
+    };
     ops.push(Op::Connect {
         spec: spec2,
         outcome: ConnOutcome::Full,
@@ -2711,7 +2751,11 @@ fn gen_late_cycle(rng: &mut Rng, layer: u8) -> (LocalCfg, Vec<Op>) {
         ops.push(Op::Drop {
             how: gen_drop(rng, layer),
         });
-        for l in [Op::LateRestart, Op::LateLlgr { fam: 0 }, Op::LateLlgr { fam: 1 }] {
+        for l in [
+            Op::LateRestart,
+            Op::LateLlgr { fam: 0 },
+            Op::LateLlgr { fam: 1 },
+        ] {
             if rng.chance(1, 2) {
                 ops.push(l);
             }
@@ -2757,16 +2801,39 @@ fn gen_two_cycles(rng: &mut Rng, layer: u8) -> (LocalCfg, Vec<Op>) {
         } else {
             None
         },
-        llgr: if rng.chance(3, 4) { *rng.pick(&[0b11u8, 0b11, 0b01, 0b10]) } else { 0 },
+        llgr: if rng.chance(3, 4) {
+            *rng.pick(&[0b11u8, 0b11, 0b01, 0b10])
+        } else {
+            0
+        },
     };
     let spec = mk_spec(rng);
-    let restart = |rng: &mut Rng| if rng.chance(3, 4) { Op::ExpireRestart } else { Op::FireRestart };
-    let llgr = |rng: &mut Rng, fam: usize| if rng.chance(3, 4) { Op::ExpireLlgr { fam } } else { Op::FireLlgr { fam } };
+    let restart = |rng: &mut Rng| {
+        if rng.chance(3, 4) {
+            Op::ExpireRestart
+        } else {
+            Op::FireRestart
+        }
+    };
+    let llgr = |rng: &mut Rng, fam: usize| {
+        if rng.chance(3, 4) {
+            Op::ExpireLlgr { fam }
+        } else {
+            Op::FireLlgr { fam }
+        }
+    };
     let session = |rng: &mut Rng, ops: &mut Vec<Op>, spec: CapSpec, eor: bool| {
-        ops.push(Op::Connect { spec, outcome: ConnOutcome::Full });
+        ops.push(Op::Connect {
+            spec,
+            outcome: ConnOutcome::Full,
+        });
         for f in 0..2 {
             for p in 0..rng.range(1, 2) as u8 {
-                ops.push(Op::Announce { fam: f, pfx: p, kind: gen_kind(rng) });
+                ops.push(Op::Announce {
+                    fam: f,
+                    pfx: p,
+                    kind: gen_kind(rng),
+                });
             }
         }
         if eor {
@@ -2782,12 +2849,29 @@ fn gen_two_cycles(rng: &mut Rng, layer: u8) -> (LocalCfg, Vec<Op>) {
     let cycles = if rng.chance(1, 4) { 3 } else { 2 };
     let mut cur = spec;
     for c in 0..cycles {
-        ops.push(Op::Drop { how: if rng.chance(5, 6) { DropHow::TcpRst } else { DropHow::TcpFin } });
+        ops.push(Op::Drop {
+            how: if rng.chance(5, 6) {
+                DropHow::TcpRst
+            } else {
+                DropHow::TcpFin
+            },
+        });
         if rng.chance(1, 6) {
-            ops.push(Op::Connect { spec: cur, outcome: if rng.bool() { ConnOutcome::DieAfterOpen } else { ConnOutcome::DieBeforeOpen } });
+            ops.push(Op::Connect {
+                spec: cur,
+                outcome: if rng.bool() {
+                    ConnOutcome::DieAfterOpen
+                } else {
+                    ConnOutcome::DieBeforeOpen
+                },
+            });
         }
         // how this cycle ends; the last one mostly runs the timers to their end
-        let kind = if c + 1 == cycles { rng.below(4) } else { rng.below(8) };
+        let kind = if c + 1 == cycles {
+            rng.below(4)
+        } else {
+            rng.below(8)
+        };
         match kind {
             0..=2 => {
                 // timers run out: restart timer, then every LLGR timer
@@ -2811,7 +2895,13 @@ fn gen_two_cycles(rng: &mut Rng, layer: u8) -> (LocalCfg, Vec<Op>) {
                 // re-established, then a drop that must not enter helper mode
                 let eor = rng.bool();
                 session(rng, &mut ops, cur, eor);
-                ops.push(Op::Drop { how: *rng.pick(&[DropHow::Notif(6, 9), DropHow::ApiShutdown, DropHow::Notif(3, 1)]) });
+                ops.push(Op::Drop {
+                    how: *rng.pick(&[
+                        DropHow::Notif(6, 9),
+                        DropHow::ApiShutdown,
+                        DropHow::Notif(3, 1),
+                    ]),
+                });
             }
             _ => ops.push(Op::ForceDownIdle),
         }
@@ -3531,16 +3621,30 @@ fn part_l1x(ctl: &Ctl, rep: &mut Report) {
 /// end), every sequence of `depth` letters is enumerated for what follows.  Reaches the
 /// second LLGR period of GR+LLGR configurations, which plain `l1x` would need depth 8 for.
 fn part_l1c(ctl: &Ctl, rep: &mut Report) {
-    let depth = ctl.params.get_u64("depth", if ctl.params.thorough() { 4 } else { 3 }) as usize;
+    let depth = ctl
+        .params
+        .get_u64("depth", if ctl.params.thorough() { 4 } else { 3 }) as usize;
     let nshards = ctl.params.get_u64("nshards", 1).max(1) as usize;
     let me = shard_index(ctl.params) % nshards;
     let first_cycles: [(&str, &[&str]); 7] = [
-        ("timers-run-out", &["D-tcp", "T", "L-v4", "L-v6", "R-same", "A", "E-v4", "E-v6"]),
-        ("one-llgr-timer-runs-out", &["D-tcp", "T", "L-v4", "R-same", "A", "E-v4", "E-v6"]),
+        (
+            "timers-run-out",
+            &["D-tcp", "T", "L-v4", "L-v6", "R-same", "A", "E-v4", "E-v6"],
+        ),
+        (
+            "one-llgr-timer-runs-out",
+            &["D-tcp", "T", "L-v4", "R-same", "A", "E-v4", "E-v6"],
+        ),
         ("eor", &["D-tcp", "R-same", "A", "E-v4", "E-v6"]),
-        ("reconnect-after-restart-expiry", &["D-tcp", "T", "R-same", "A", "E-v4", "E-v6"]),
+        (
+            "reconnect-after-restart-expiry",
+            &["D-tcp", "T", "R-same", "A", "E-v4", "E-v6"],
+        ),
         ("reconnect-no-eor", &["D-tcp", "T", "R-same", "A"]),
-        ("non-gr-drop", &["D-tcp", "R-same", "D-hard-reset", "R-same", "A"]),
+        (
+            "non-gr-drop",
+            &["D-tcp", "R-same", "D-hard-reset", "R-same", "A"],
+        ),
         ("forced-down", &["D-tcp", "F", "R-same", "A"]),
     ];
     let mut item = 0usize;
@@ -3576,9 +3680,13 @@ fn part_l1c(ctl: &Ctl, rep: &mut Report) {
                         "l1c cfg={} first-cycle={} then letters={}",
                         cname,
                         kname,
-                        seq.iter().map(|i| alpha[*i].0).collect::<Vec<_>>().join(",")
+                        seq.iter()
+                            .map(|i| alpha[*i].0)
+                            .collect::<Vec<_>>()
+                            .join(",")
                     );
-                    let (applied, violated) = evaluate(ctl, rep, 1, &cfg, &ops, 0, &origin, tail_from);
+                    let (applied, violated) =
+                        evaluate(ctl, rep, 1, &cfg, &ops, 0, &origin, tail_from);
                     if !applied {
                         continue;
                     }
@@ -3757,8 +3865,15 @@ fn limit_import_policy(fam: usize) -> Arc<table::PolicyAssignment> {
 
 #[derive(Clone, Debug, PartialEq)]
 enum LOp {
-    Announce { pfx: u8, pid: u32, med: u32 },
-    Withdraw { pfx: u8, pid: u32 },
+    Announce {
+        pfx: u8,
+        pid: u32,
+        med: u32,
+    },
+    Withdraw {
+        pfx: u8,
+        pid: u32,
+    },
     /// new connection after the previous session was torn down
     Reconnect,
 }
@@ -3780,19 +3895,33 @@ fn gen_limit_script(rng: &mut Rng, cfg: &LimitCfg) -> Vec<LOp> {
         let mut held: BTreeMap<u8, BTreeSet<u32>> = BTreeMap::new();
         let mut next_plain: u8 = rng.below(8) as u8;
         let mut next_filt: u8 = FILTERED_LO + rng.below(8) as u8;
-        let accepted = |h: &BTreeMap<u8, BTreeSet<u32>>| h.keys().filter(|p| !limit_filtered(cfg, **p)).count();
+        let accepted = |h: &BTreeMap<u8, BTreeSet<u32>>| {
+            h.keys().filter(|p| !limit_filtered(cfg, **p)).count()
+        };
         for _ in 0..rng.range(3, 22) {
             let k = rng.below(100);
             med += 1;
             let any = !held.is_empty();
             if k < 35 && held.len() < n {
                 held.entry(next_plain).or_default().insert(0);
-                ops.push(LOp::Announce { pfx: next_plain, pid: 0, med });
+                ops.push(LOp::Announce {
+                    pfx: next_plain,
+                    pid: 0,
+                    med,
+                });
                 next_plain += 1;
-            } else if k < 47 && cfg.policy && (held.len() < n || rng.chance(1, 4)) && next_filt < FILTERED_HI {
+            } else if k < 47
+                && cfg.policy
+                && (held.len() < n || rng.chance(1, 4))
+                && next_filt < FILTERED_HI
+            {
                 // a prefix the import policy rejects; beyond N announced prefixes the outcome is open
                 held.entry(next_filt).or_default().insert(0);
-                ops.push(LOp::Announce { pfx: next_filt, pid: 0, med });
+                ops.push(LOp::Announce {
+                    pfx: next_filt,
+                    pid: 0,
+                    med,
+                });
                 next_filt += 1;
             } else if k < 65 && any {
                 let pfx = *rng.pick(&held.keys().copied().collect::<Vec<_>>());
@@ -3820,13 +3949,21 @@ fn gen_limit_script(rng: &mut Rng, cfg: &LimitCfg) -> Vec<LOp> {
         while accepted(&held) < n + 1 && next_plain < FILTERED_LO - 1 {
             med += 1;
             held.entry(next_plain).or_default().insert(0);
-            ops.push(LOp::Announce { pfx: next_plain, pid: 0, med });
+            ops.push(LOp::Announce {
+                pfx: next_plain,
+                pid: 0,
+                med,
+            });
             next_plain += 1;
         }
         if rng.chance(1, 3) {
             // one more, in case the session is (wrongly) still there
             med += 1;
-            ops.push(LOp::Announce { pfx: next_plain, pid: 0, med });
+            ops.push(LOp::Announce {
+                pfx: next_plain,
+                pid: 0,
+                med,
+            });
         }
     }
     ops
@@ -3941,8 +4078,11 @@ async fn limit_connect(w: &mut L2World<'_>, cfg: &LimitCfg) -> Result<L2Live, HE
     }))
     .await?;
     l.send(&bgp::Message::Keepalive).await?;
-    l.read_until(|l| l.eors[0] > 0 && l.eors[1] > 0, "initial End-of-RIB markers")
-        .await?;
+    l.read_until(
+        |l| l.eors[0] > 0 && l.eors[1] > 0,
+        "initial End-of-RIB markers",
+    )
+    .await?;
     Ok(l)
 }
 
@@ -4083,13 +4223,19 @@ async fn run_limit_history(
         let must_survive = announced <= n;
         let must_die = accepted > n;
         if l.send(&msg).await.is_err() {
-            out.herr = Some(HErr::Io("write to a session that should be up failed".into()));
+            out.herr = Some(HErr::Io(
+                "write to a session that should be up failed".into(),
+            ));
             break;
         }
         let probe = limit_probe(l, &w.tables, w.addr, !must_survive).await;
         out.judged += 1;
         let rib = limit_rib(&w.tables, w.addr, cfg.fam);
-        let rib_accepted: BTreeSet<u8> = rib.iter().filter(|(_, _, f)| !*f).map(|(p, _, _)| *p).collect();
+        let rib_accepted: BTreeSet<u8> = rib
+            .iter()
+            .filter(|(_, _, f)| !*f)
+            .map(|(p, _, _)| *p)
+            .collect();
         if want_trace {
             out.trace.push(format!(
                 "#{} {:?} (announced {} accepted {} of max {}) => {:?}, rib={:?}",
@@ -4112,7 +4258,8 @@ async fn run_limit_history(
                 let _ = join_session(join).await;
                 drop(client);
                 if want_trace {
-                    out.trace.push(format!("   session ended, NOTIFICATION read: {:?}", notif));
+                    out.trace
+                        .push(format!("   session ended, NOTIFICATION read: {:?}", notif));
                 }
                 if must_survive {
                     out.finding = Some((
@@ -4134,12 +4281,16 @@ async fn run_limit_history(
                     } else {
                         out.finding = Some((
                             "closed-without-cease-1".into(),
-                            format!("the session ended at the (N+1)th accepted prefix but the remote end read NOTIFICATION {:?}, not Cease/1", notif),
+                            format!(
+                                "the session ended at the (N+1)th accepted prefix but the remote end read NOTIFICATION {:?}, not Cease/1",
+                                notif
+                            ),
                         ));
                         break;
                     }
                 } else {
-                    out.stats.add("unjudged:teardown-while-filtered-prefixes-fill-the-limit");
+                    out.stats
+                        .add("unjudged:teardown-while-filtered-prefixes-fill-the-limit");
                 }
                 if !limit_rib(&w.tables, w.addr, cfg.fam).is_empty() {
                     out.stats.add("unjudged:routes-left-after-limit-teardown");
@@ -4192,7 +4343,8 @@ async fn run_limit_history(
                         .flat_map(|(p, s)| s.iter().map(|i| (*p, *i, limit_filtered(cfg, *p))))
                         .collect();
                     if rib != want {
-                        out.stats.add("unjudged:rib-differs-from-what-was-announced");
+                        out.stats
+                            .add("unjudged:rib-differs-from-what-was-announced");
                         out.herr = Some(HErr::Harness(format!(
                             "RIB {:?} differs from what the remote end announced {:?}",
                             rib, want
@@ -4200,7 +4352,8 @@ async fn run_limit_history(
                         break;
                     }
                 } else {
-                    out.stats.add("unjudged:alive-while-filtered-prefixes-fill-the-limit");
+                    out.stats
+                        .add("unjudged:alive-while-filtered-prefixes-fill-the-limit");
                 }
             }
         }
@@ -4219,7 +4372,9 @@ fn c15_limit_signalled() {
         .enable_all()
         .build()
         .expect("runtime");
-    let listener = match rt.block_on(crate::verif_hooks::bind_retry("127.0.0.1:0".parse().unwrap())) {
+    let listener = match rt.block_on(crate::verif_hooks::bind_retry(
+        "127.0.0.1:0".parse().unwrap(),
+    )) {
         Ok(l) => l,
         Err(e) => {
             rep.inconclusive(&format!("cannot bind a loopback listener: {}", e));
@@ -4246,14 +4401,25 @@ fn c15_limit_signalled() {
         if only.is_some_and(|o| o != idx) {
             continue;
         }
-        let exec = |script: &[LOp], trace: bool| guard(|| rt.block_on(run_limit_history(&cfg, shards, script, &listener, trace)));
+        let exec = |script: &[LOp], trace: bool| {
+            guard(|| rt.block_on(run_limit_history(&cfg, shards, script, &listener, trace)))
+        };
         let out = match exec(&script, false) {
             Ok(o) => o,
             Err(p) => {
                 rep.violation(
                     &format!("C15/panic/{}:{}", p.location, panic_class(&p.message)),
-                    &format!("panic in the daemon while a session with a prefix limit was driven: {}", p.message),
-                    Json::obj(vec![("config", Json::s(format!("{:?}", cfg))), ("script", Json::strs(script.iter().map(|o| format!("{:?}", o))))]),
+                    &format!(
+                        "panic in the daemon while a session with a prefix limit was driven: {}",
+                        p.message
+                    ),
+                    Json::obj(vec![
+                        ("config", Json::s(format!("{:?}", cfg))),
+                        (
+                            "script",
+                            Json::strs(script.iter().map(|o| format!("{:?}", o))),
+                        ),
+                    ]),
                 );
                 continue;
             }
@@ -4272,7 +4438,10 @@ fn c15_limit_signalled() {
         }
         if let Some(e) = &out.herr {
             rep.count("limit:harness-error");
-            rep.inconclusive(&format!("limit-e2e harness error: {:?} (config {:?}, history {})", e, cfg, idx));
+            rep.inconclusive(&format!(
+                "limit-e2e harness error: {:?} (config {:?}, history {})",
+                e, cfg, idx
+            ));
             continue;
         }
         if out.nontrivial {
@@ -4281,7 +4450,10 @@ fn c15_limit_signalled() {
         let Some((fact, detail)) = out.finding else {
             if rep.want_sample() && out.nontrivial {
                 if let Ok(t) = exec(&script, true) {
-                    rep.sample(Json::obj(vec![("config", Json::s(format!("{:?}", cfg))), ("steps", Json::strs(t.trace))]));
+                    rep.sample(Json::obj(vec![
+                        ("config", Json::s(format!("{:?}", cfg))),
+                        ("steps", Json::strs(t.trace)),
+                    ]));
                 }
             }
             continue;
